@@ -22,9 +22,13 @@ namespace BitSerializer
 			TValue temp;
 			if constexpr (TArchive::IsLoading())
 			{
-				archive.SerializeValue(std::forward<TKey>(key), temp);
-				value.store(temp);
-				return true;
+				// The target must stay unchanged when the value was not loaded
+				if (archive.SerializeValue(std::forward<TKey>(key), temp))
+				{
+					value.store(temp);
+					return true;
+				}
+				return false;
 			}
 			else
 			{
@@ -45,9 +49,13 @@ namespace BitSerializer
 			TValue temp;
 			if constexpr (TArchive::IsLoading())
 			{
-				archive.SerializeValue(temp);
-				value.store(temp);
-				return true;
+				// The target must stay unchanged when the value was not loaded
+				if (archive.SerializeValue(temp))
+				{
+					value.store(temp);
+					return true;
+				}
+				return false;
 			}
 			else
 			{
